@@ -44,7 +44,7 @@ ExprOver(x, y, z) ==
   \cup { N("IfExp", "", <<x, y, z>>) }
   \cup { N("Call", v, <<x, y, z>>) : v \in CallVariants }
   \cup { N("Attribute", "attr", <<x>>) }
-  \cup { N("Subscript", "index", <<x, y>>), N("Subscript", "tuple", <<x, y, z>>), N("Subscript", "ellipsis", <<x>>) }
+  \cup { N("Subscript", "index", <<x, y>>), N("Subscript", "tuple", <<x, y, z>>), N("Subscript", "ellipsis", <<x>>), N("Subscript", "one_tuple", <<x, y>>) }
   \cup { N("SubscriptSlice", v, <<x, y>>) : v \in SliceVariants }
   \cup { N("SubscriptSlices", "l:u:,::s", <<x, y, z>>) }
   \cup { N(k, v, <<x, y>>) : k \in {"List", "Tuple", "Set"}, v \in {"plain", "starred"} }
@@ -101,13 +101,14 @@ D2Expr == UNION { Slots(h) : h \in D1Expr }
 (* statements: every constructor / variant with atomic parts; expression slots are filled from D1Expr separately *)
 AugOps == BinOps
 StmtOver(e) ==
-     { N("Assign", v, <<e>>) : v \in {"single", "multi", "tuple_target", "starred_target", "attr_target", "subscript_target"} }
+     { N("Assign", v, <<e>>) : v \in {"single", "multi", "tuple_target", "starred_target", "attr_target", "subscript_target",
+                                       "one_tuple_value", "one_tuple_target", "one_tuple_aug"} }   \* x = e,   x, = e   x += e,
   \cup { N("AugAssign", op, <<e>>) : op \in AugOps }
   \cup { N("AnnAssign", v, <<e>>) : v \in {"value", "novalue", "attr"} }
   \cup { N("ExprStmt", "", <<e>>), N("Delete", "names", <<>>), N("Delete", "subscript", <<>>), N("Pass", "", <<>>) }
   \cup { N("If", v, <<e>>) : v \in {"plain", "else", "elif", "elif_else"} }
   \cup { N("While", v, <<e>>) : v \in {"plain", "else", "break_continue"} }
-  \cup { N("For", v, <<e>>) : v \in {"plain", "else", "tuple_target", "async"} }
+  \cup { N("For", v, <<e>>) : v \in {"plain", "else", "tuple_target", "one_tuple_target", "async"} }
   \cup { N("With", v, <<e>>) : v \in {"plain", "as", "two", "async"} }
   \cup { N("Try", v, <<e>>) : v \in {"except", "except_type", "except_as", "except_tuple", "else", "finally", "only_finally", "two_handlers"} }
   \cup { N("Raise", v, <<e>>) : v \in {"bare", "exc", "from"} }
@@ -115,7 +116,7 @@ StmtOver(e) ==
   \cup { N("Import", v, <<>>) : v \in {"plain", "as", "dotted", "two"} }
   \cup { N("ImportFrom", v, <<>>) : v \in {"plain", "as", "relative1", "relative2", "star", "two"} }
   \cup { N("FunctionDef", v, <<e>>) : v \in ArgsVariants }
-  \cup { N("FunctionDef", v, <<e>>) : v \in {"decorator", "decorator_call", "async", "global", "nonlocal", "yield", "yield_from", "await", "return_none", "docstring", "nested"} }
+  \cup { N("FunctionDef", v, <<e>>) : v \in {"decorator", "decorator_call", "async", "global", "nonlocal", "yield", "yield_from", "await", "return_none", "docstring", "nested", "return_one_tuple", "yield_one_tuple"} }
   \cup { N("ClassDef", v, <<e>>) : v \in {"plain", "bases", "keywords", "decorator", "method"} }
   \cup { N("Match", "", <<e>>), N("TypeAlias", "", <<e>>) }
 D1Stmt == StmtOver(A)
